@@ -185,6 +185,19 @@ def build_app(track=None):
         app.response.set_cookie('sid', 'token-of-' + m, path='/', httponly=True)
         return 'welcome back'
 
+    @app.route('/ext_set')
+    def ext_set():
+        # application-defined request attributes live in the environ of the request they were set on
+        rq = app.request
+        rq.who = 'user-' + rq.query.get('m', '')
+        rq.cart = [rq.who]
+        return 'set %s %r' % (rq.who, rq.cart)
+
+    @app.route('/ext_get')
+    def ext_get():
+        rq = app.request
+        return 'who=%s cart=%r' % (getattr(rq, 'who', 'nobody'), getattr(rq, 'cart', None))
+
     @app.route('/peek')
     def peek():
         # a request without a body has no form fields, whatever was posted before
@@ -260,6 +273,8 @@ def kinds():
         'chunked_urlform': lambda m: dict(method='POST', path='/form', qs='m=' + m, content_type='application/x-www-form-urlencoded', chunked=True, content_length=None,
                                           stream=b'4\r\na=' + m.encode()[:1] + b'x\r\n' + b'%x\r\n' % (len(m) + 4) + m.encode() + b'&b=2\r\n0\r\n\r\n'),
         'peek': lambda m: dict(method='GET', path='/peek', qs='m=' + m),
+        'ext_set': lambda m: dict(method='GET', path='/ext_set', qs='m=' + m),
+        'ext_get': lambda m: dict(method='GET', path='/ext_get'),
         'prepared_bye': lambda m: dict(method='GET', path='/bye'),
         'logout': lambda m: dict(method='GET', path='/logout'),
         'relogin': lambda m: dict(method='GET', path='/relogin', qs='m=' + m),
@@ -284,7 +299,7 @@ def kinds():
 
 VARIANTS = ['A1', 'B22xx']      # different lengths: pages that embed the URL differ in size
 SUCCESS = {'ok', 'plain', 'raise', 'head', 'gen', 'form', 'urlform', 'signed', 'goodjson', 'gen_cookie', 'file', 'file_wrapped', 'file_wrapped_head', 'session', 'ok_http10',
-           'chunked_urlform', 'peek', 'spilled_echo', 'cookies_bad', 'cookies_ok', 'form_repeated', 'greet_known', 'greet_stranger', 'anon_wildcard_path', 'prepared_bye', 'logout', 'relogin', 'urlform_long', 'urlform_cut'}
+           'chunked_urlform', 'peek', 'spilled_echo', 'cookies_bad', 'cookies_ok', 'form_repeated', 'greet_known', 'greet_stranger', 'anon_wildcard_path', 'prepared_bye', 'logout', 'relogin', 'urlform_long', 'urlform_cut', 'ext_set', 'ext_get'}
 SHARED_ERR = {'badchunk', 'badmultipart', 'oversized', 'noname_part', 'badjson_json', 'badchunk_json', 'oversized_json', 'cutmp_in_closing_delimiter', 'cutmp_in_first_delimiter'}
 
 
